@@ -335,3 +335,158 @@ Proof.
   induction s as [|o s IH]; intros c; [reflexivity|].
   cbn [chan_run_from]. destruct (chan_step c o) as [c' ob]. cbn [length]. rewrite IH. reflexivity.
 Qed.
+
+(* ==================================================================================== *)
+(* What the FIFO checker means for ANY accepted trace (model run or implementation       *)
+(* trace): the received values are a prefix of the successfully sent values (in order,   *)
+(* each once), and a poll withholds nothing.                                              *)
+(* ==================================================================================== *)
+Lemma fifo_f_cases : forall h q o ob q', fifo_f h q o ob = Some q' ->
+     (exists i v, o = Send i v /\ o_ret ob = RSent true /\ q' = q ++ [v])
+  \/ (exists i v, o = Send i v /\ o_ret ob = RSent false /\ q' = q)
+  \/ (exists w v, o = PollRecv w /\ o_ret ob = RPoll (Item v) /\ q = v :: q')
+  \/ (exists w r, o = PollRecv w /\ o_ret ob = RPoll r /\ (forall v, r <> Item v) /\ q = [] /\ q' = [])
+  \/ (o = DropReceiver /\ o_ret ob = RUnit /\ q' = [])
+  \/ ((forall i v, o <> Send i v) /\ (forall w, o <> PollRecv w) /\ o <> DropReceiver
+      /\ o_ret ob = RUnit /\ q' = q).
+Proof.
+  intros h q o ob q' H. destruct ob as [ret ws]. cbn [o_ret].
+  destruct o as [i v|i|i|i|w| |]; destruct ret as [| |[|]|[|x|]]; cbn [fifo_f o_ret] in H; try discriminate.
+  - left. exists i, v. inversion H. auto.
+  - right; left. exists i, v. inversion H. auto.
+  - do 5 right. inversion H. repeat split; intros; discriminate.
+  - do 5 right. inversion H. repeat split; intros; discriminate.
+  - do 5 right. inversion H. repeat split; intros; discriminate.
+  - do 3 right; left. exists w, Pending. destruct q; inversion H. repeat split; intros; discriminate.
+  - do 2 right; left. exists w, x. destruct q as [|y q0]; [discriminate|].
+    destruct (Z.eqb y x) eqn:E; inversion H. apply Z.eqb_eq in E. subst. auto.
+  - do 3 right; left. exists w, Finished. destruct q; inversion H. repeat split; intros; discriminate.
+  - do 5 right. inversion H. repeat split; intros; discriminate.
+  - do 4 right; left. inversion H. auto.
+Qed.
+
+(* once the receiver handle is gone no poll is executed, so nothing is received any more *)
+Lemma received_no_receiver : forall (A : Type) (f : handles -> A -> chan_op -> chan_obs -> option A) s tr h a,
+  hr h = false -> chan_check f h a s tr = true -> received s tr = [].
+Proof.
+  intros A f. induction s as [|o s IH]; intros tr h a Hh H; [destruct tr; reflexivity|].
+  destruct tr as [|ob tr]; [reflexivity|]. cbn [chan_check] in H.
+  destruct (valid h o) eqn:Hv.
+  - destruct (f h a o ob) as [a'|]; [|discriminate].
+    assert (Hrec : received (o :: s) (ob :: tr) = received s tr).
+    { destruct o; cbn [received]; try reflexivity. cbn [valid] in Hv. congruence. }
+    rewrite Hrec. apply (IH tr (h_step h o) a'); [apply hr_step_false; assumption|exact H].
+  - destruct (o_ret ob) eqn:Hr; try discriminate.
+    assert (Hrec : received (o :: s) (ob :: tr) = received s tr).
+    { destruct o; cbn [received]; rewrite ?Hr; reflexivity. }
+    rewrite Hrec. apply (IH tr h a); assumption.
+Qed.
+
+Lemma fifo_prefix_gen : forall s tr h q,
+  chan_check fifo_f h q s tr = true -> exists rest, q ++ sent_ok s tr = received s tr ++ rest.
+Proof.
+  induction s as [|o s IH]; intros tr h q H.
+  - destruct tr; [|discriminate]. exists q. cbn. apply app_nil_r.
+  - destruct tr as [|ob tr]; [discriminate|]. cbn [chan_check] in H.
+    destruct (valid h o) eqn:Hv.
+    + destruct (fifo_f h q o ob) as [q'|] eqn:Hf; [|discriminate].
+      destruct (fifo_f_cases _ _ _ _ _ Hf)
+        as [(i & v & -> & Hr & ->)|[(i & v & -> & Hr & ->)|[(w & v & -> & Hr & ->)|
+           [(w & r & -> & Hr & Hni & -> & ->)|[(-> & Hr & ->)|(Hns & Hnp & Hnd & Hr & ->)]]]]].
+      * destruct (IH _ _ _ H) as [rest E]. exists rest. cbn [sent_ok received]. rewrite ?Hr.
+        rewrite <- E, <- app_assoc. reflexivity.
+      * destruct (IH _ _ _ H) as [rest E]. exists rest. cbn [sent_ok received]. rewrite ?Hr. exact E.
+      * destruct (IH _ _ _ H) as [rest E]. exists rest. cbn [sent_ok received]. rewrite ?Hr.
+        cbn [app]. rewrite E. reflexivity.
+      * destruct (IH _ _ _ H) as [rest E]. exists rest. cbn [sent_ok received]. rewrite ?Hr.
+        destruct r as [|v|]; [exact E|exfalso; exact (Hni v eq_refl)|exact E].
+      * exists (q ++ sent_ok s tr). cbn [sent_ok received]. rewrite ?Hr.
+        rewrite (received_no_receiver _ _ _ _ _ _ (eq_refl : hr (h_step h DropReceiver) = false) H).
+        reflexivity.
+      * destruct (IH _ _ _ H) as [rest E]. exists rest.
+        destruct o; cbn [sent_ok received]; rewrite ?Hr; exact E.
+    + destruct (o_ret ob) eqn:Hr; try discriminate.
+      destruct (IH _ _ _ H) as [rest E]. exists rest.
+      destruct o; cbn [sent_ok received]; rewrite ?Hr; exact E.
+Qed.
+
+Lemma fifo_prefix : forall s tr,
+  fifo_ok s tr = true -> exists rest, sent_ok s tr = received s tr ++ rest.
+Proof. intros s tr H. exact (fifo_prefix_gen s tr h_init [] H). Qed.
+
+Lemma poll_needs_receiver : forall (A : Type) (f : handles -> A -> chan_op -> chan_obs -> option A) s1 tr1 h a w r ws,
+  hr h = false -> length s1 = length tr1 ->
+  chan_check f h a (s1 ++ [PollRecv w]) (tr1 ++ [Obs (RPoll r) ws]) = false.
+Proof.
+  intros A f. induction s1 as [|o s1 IH]; intros tr1 h a w r ws Hh Hl.
+  - destruct tr1; [|discriminate]. cbn [app chan_check valid]. rewrite Hh. reflexivity.
+  - destruct tr1 as [|ob tr1]; [discriminate|]. cbn [app chan_check].
+    destruct (valid h o) eqn:Hv.
+    + destruct (f h a o ob) as [a'|]; [|reflexivity].
+      apply IH; [apply hr_step_false; assumption|]. cbn [length] in Hl. lia.
+    + destruct (o_ret ob); try reflexivity. apply IH; [assumption|]. cbn [length] in Hl. lia.
+Qed.
+
+Lemma fifo_complete_gen : forall s1 tr1 h q w r ws,
+  length s1 = length tr1 ->
+  chan_check fifo_f h q (s1 ++ [PollRecv w]) (tr1 ++ [Obs (RPoll r) ws]) = true ->
+  match r with
+  | Item v => exists rest, q ++ sent_ok s1 tr1 = received s1 tr1 ++ v :: rest
+  | _ => q ++ sent_ok s1 tr1 = received s1 tr1
+  end.
+Proof.
+  induction s1 as [|o s1 IH]; intros tr1 h q w r ws Hl H.
+  - destruct tr1; [|discriminate]. cbn [app chan_check] in H.
+    destruct (valid h (PollRecv w)); [|discriminate].
+    destruct (fifo_f h q (PollRecv w) (Obs (RPoll r) ws)) as [q'|] eqn:Hf; [|discriminate].
+    cbn [sent_ok received]. rewrite app_nil_r. cbn [app].
+    destruct r as [|v|]; cbn [fifo_f o_ret] in Hf.
+    + destruct q; [reflexivity|discriminate].
+    + destruct q as [|y q0]; [discriminate|]. destruct (Z.eqb y v) eqn:E; [|discriminate].
+      apply Z.eqb_eq in E. subst y. exists q0. reflexivity.
+    + destruct q; [reflexivity|discriminate].
+  - destruct tr1 as [|ob tr1]; [discriminate|]. cbn [length] in Hl.
+    assert (Hl' : length s1 = length tr1) by lia.
+    cbn [app chan_check] in H.
+    destruct (valid h o) eqn:Hv.
+    + destruct (fifo_f h q o ob) as [q'|] eqn:Hf; [|discriminate].
+      destruct (fifo_f_cases _ _ _ _ _ Hf)
+        as [(i & v & -> & Hr & ->)|[(i & v & -> & Hr & ->)|[(w0 & v & -> & Hr & ->)|
+           [(w0 & r0 & -> & Hr & Hni & -> & ->)|[(-> & Hr & ->)|(Hns & Hnp & Hnd & Hr & ->)]]]]].
+      * specialize (IH _ _ _ _ _ _ Hl' H). cbn [sent_ok received]. rewrite ?Hr.
+        destruct r; [|destruct IH as [rest E]; exists rest|]; rewrite <- ?E, <- ?IH, <- app_assoc; reflexivity.
+      * specialize (IH _ _ _ _ _ _ Hl' H). cbn [sent_ok received]. rewrite ?Hr. exact IH.
+      * specialize (IH _ _ _ _ _ _ Hl' H). cbn [sent_ok received]. rewrite ?Hr. cbn [app].
+        destruct r; [|destruct IH as [rest E]; exists rest|]; rewrite ?E, ?IH; reflexivity.
+      * specialize (IH _ _ _ _ _ _ Hl' H). cbn [sent_ok received]. rewrite ?Hr.
+        destruct r0 as [|v|]; [exact IH|exfalso; exact (Hni v eq_refl)|exact IH].
+      * rewrite (poll_needs_receiver _ fifo_f s1 tr1 (h_step h DropReceiver) [] w r ws eq_refl Hl') in H.
+        discriminate.
+      * specialize (IH _ _ _ _ _ _ Hl' H).
+        destruct o; cbn [sent_ok received]; rewrite ?Hr; exact IH.
+    + destruct (o_ret ob) eqn:Hr; try discriminate.
+      specialize (IH _ _ _ _ _ _ Hl' H).
+      destruct o; cbn [sent_ok received]; rewrite ?Hr; exact IH.
+Qed.
+
+Lemma fifo_complete : forall s1 tr1 w r ws,
+  length s1 = length tr1 ->
+  fifo_ok (s1 ++ [PollRecv w]) (tr1 ++ [Obs (RPoll r) ws]) = true ->
+  match r with
+  | Item v => exists rest, sent_ok s1 tr1 = received s1 tr1 ++ v :: rest
+  | _ => sent_ok s1 tr1 = received s1 tr1
+  end.
+Proof. intros s1 tr1 w r ws Hl H. exact (fifo_complete_gen s1 tr1 h_init [] w r ws Hl H). Qed.
+
+(* a prefix of an accepted run is accepted: checkers are prefix-closed *)
+Lemma chan_check_prefix : forall (A : Type) (f : handles -> A -> chan_op -> chan_obs -> option A) s1 s2 tr1 tr2 h a,
+  length s1 = length tr1 ->
+  chan_check f h a (s1 ++ s2) (tr1 ++ tr2) = true -> chan_check f h a s1 tr1 = true.
+Proof.
+  intros A f. induction s1 as [|o s1 IH]; intros s2 tr1 tr2 h a Hl H.
+  - destruct tr1; [reflexivity|discriminate].
+  - destruct tr1 as [|ob tr1]; [discriminate|]. cbn [length] in Hl. cbn [app chan_check] in *.
+    destruct (valid h o).
+    + destruct (f h a o ob) as [a'|]; [|discriminate]. eapply IH; [lia|exact H].
+    + destruct (o_ret ob); try discriminate. eapply IH; [lia|exact H].
+Qed.
